@@ -14,9 +14,10 @@ from .common import cZ, cnat, cbool, clist, copt, cpair
 # Which model of SneakyPool.map the code is compared with: False = the code as it is in the pinned
 # tree (results yielded in completion order), True = after proposed_fixes/C14-map-order.diff
 # (ordered blocking collection).  The lead flips this when the fix is applied.
-MAP_FIXED = False
+MAP_FIXED = os.environ.get("C14_MAP_FIXED", "0") == "1"   # default: the code as it is
 
 ORDER_CLASS = "map-order-multiprocess"
+RACE_CLASS = "run-jobs-startup-race"
 
 
 def fval(x):
@@ -188,12 +189,18 @@ def gen_cases(ctx):
     thorough = ctx.tier == "thorough"
     k = 5 if thorough else 1
     cases = [json.loads(json.dumps(c)) for c in FIXED_CASES]
-    cases += [gen_smap(rng, thorough) for _ in range(110 * k)]
-    cases += [gen_init(rng, thorough) for _ in range(50 * k)]
-    cases += [gen_emcee(rng) for _ in range(16 * k)]
-    cases += [gen_jobs_case(rng, thorough) for _ in range(70 * k)]
-    cases += [gen_smap_free(rng) for _ in range(8 * k)]
-    cases += [gen_jobs_free(rng) for _ in range(6 * k)]
+    cases += [gen_smap(rng, thorough) for _ in range(90 * k)]
+    cases += [gen_init(rng, thorough) for _ in range(40 * k)]
+    cases += [gen_emcee(rng) for _ in range(12 * k)]
+    cases += [gen_jobs_case(rng, thorough) for _ in range(60 * k)]
+    cases += [gen_smap_free(rng) for _ in range(6 * k)]
+    cases += [gen_jobs_free(rng) for _ in range(5 * k)]
+    # quick jobs, free-running, many calls: does run_jobs always return?
+    cases.append({"kind": "jobs_race", "cores": 3, "jobs": 3, "repeat": 30, "limit": 2})
+    if thorough:
+        cases.append({"kind": "jobs_race", "cores": 2, "jobs": 1, "repeat": 60, "limit": 2})
+        cases.append({"kind": "jobs_race", "cores": 4, "jobs": 6, "repeat": 60, "limit": 2})
+        cases.append({"kind": "jobs_race", "cores": 3, "jobs": 3, "repeat": 60, "limit": 2})
     return cases
 
 
@@ -277,6 +284,13 @@ def oracle(c, r):
             serial = [i for i, (kd, _) in enumerate(stream[:drawn]) if kd == "ok"]
             if r["ks"] != serial:
                 out.append(("accepted points %s, serial evaluation accepts %s" % (r["ks"], serial), cls))
+        return out
+    if k == "jobs_race":
+        if r["wrong"]:
+            out.append(("%d of %d free-running run_jobs calls returned wrong results" % (r["wrong"], r["calls"]), []))
+        if r["hangs"]:
+            out.append(("%d of %d free-running run_jobs calls on %d quick jobs never returned (every worker found the shared "
+                        "job queue still empty and exited; the main loop polls forever)" % (r["hangs"], r["calls"], c["jobs"]), [RACE_CLASS]))
         return out
     if k in ("jobs", "jobs_free"):
         serial = r["serial"]
@@ -393,6 +407,8 @@ def nontrivial(c):
         return c["n"] >= 2 and c["total"] >= 2
     if k in ("jobs", "jobs_free"):
         return c["cores"] >= 3 and len(c["jobs"]) >= 2
+    if k == "jobs_race":
+        return True
     return False
 
 
@@ -405,15 +421,21 @@ def describe(c):
         return {"kind": k, "n": c["n"], "total": c["total"], "stream": len(c["stream"])}
     if k == "emcee":
         return {"kind": k, "procs": c["procs"], "walkers": len(c["vals"])}
+    if k == "jobs_race":
+        return dict(c)
     return {"kind": k, "cores": c["cores"], "jobs": len(c["jobs"]), "failing": sum(1 for j in c["jobs"] if j[1] == 1)}
 
 
 def shards(cases, n):
-    """split into n lists of indices, balancing kinds"""
+    """split into n lists of indices (round robin); every stress case gets a driver of its own"""
     out = [[] for _ in range(n)]
-    for i in range(len(cases)):
-        out[i % n].append(i)
-    return [s for s in out if s]
+    alone = []
+    for i, c in enumerate(cases):
+        if c["kind"] == "jobs_race":
+            alone.append([i])
+        else:
+            out[i % n].append(i)
+    return alone + [s for s in out if s]
 
 
 def run(ctx):
@@ -440,15 +462,19 @@ def run(ctx):
         "ordered variant is proved for the repaired map (map_fix) of proposed_fixes/C14-map-order.diff",
     ]
     ctx.notes["map_model"] = "fixed" if MAP_FIXED else "current (completion order)"
+    import time as _t
+    _t0 = _t.time()
     built = ctx.build()
+    ctx.notes['t_build'] = round(_t.time() - _t0, 1)
     cases = gen_cases(ctx)
     if ctx.replay:
         rp = json.load(open(ctx.replay))
         if rp.get("case"):
             cases = [rp["case"]]
-    nsh = min(common.NCPU, 12, max(1, len(cases) // 4))
+    nsh = min(common.NCPU, 14, max(1, len(cases) // 4))
     parts = shards(cases, nsh)
-    outs = common.run_impl_parallel("c14_impl", [{"cases": [cases[i] for i in p]} for p in parts], timeout=1500, workers=nsh)
+    outs = common.run_impl_parallel("c14_impl", [{"cases": [cases[i] for i in p]} for p in parts], timeout=1500, workers=len(parts))
+    ctx.notes['t_impl'] = round(_t.time() - _t0, 1)
     results = [None] * len(cases)
     for p, o in zip(parts, outs):
         if "__error__" in o:
@@ -463,13 +489,18 @@ def run(ctx):
         ctx.oracle["cases"] += 1
         d = describe(c)
         ctx.hist("workers", d["procs"] if "procs" in d else d["n"] if "n" in d else d["cores"] - 1)
+        if c["kind"] == "jobs_race" and "ok" in r:
+            ctx.notes.setdefault("jobs_race", []).append({"case": d, "hangs": r["ok"]["hangs"], "calls": r["ok"]["calls"]})
         if c["kind"] in ("smap", "smap_free"):
             for b in c["batches"]:
                 ctx.hist("batch_size", len(b["jobs"]))
                 ctx.hist("failing_jobs", sum(1 for j in b["jobs"] if j[1] == 1))
         if "exc" in r:
             ctx.oracle["failures"] += 1
-            ctx.failure("oracle", "implementation did not complete: %s: %s" % (r["exc"], r.get("msg")), c, impl=r)
+            # a free-running run_jobs call that never returns is the start-up race of Process.run (known finding);
+            # the label describes the case (kind), it is only attached to this failure mode
+            cls = [RACE_CLASS] if c["kind"] == "jobs_free" and r["exc"] == "Timeout" else []
+            ctx.failure("oracle", "implementation did not complete: %s: %s" % (r["exc"], r.get("msg")), c, classes=cls, impl=r)
             fails[i] = True
             continue
         msgs = oracle(c, r["ok"])
@@ -488,6 +519,7 @@ def run(ctx):
     if os.path.exists(os.path.join(common.COQ, "C14", "Model.vo")):
         hdr = ctx.header(["Model"])
         bad, log = ctx.eval_cases(hdr, "case", "check_case", coq_cases, shard=40)
+        ctx.notes['t_coq'] = round(_t.time() - _t0, 1)
         if bad and os.environ.get("C14_DEBUG"):
             with open(os.environ["C14_DEBUG"], "w") as f:
                 json.dump([{"case": cases[coq_idx[b]], "impl": results[coq_idx[b]], "coq": coq_cases[b]} for b in bad], f, indent=1)
